@@ -42,6 +42,7 @@ Record sst := mkS {
   s_rand : option (N * N * N);
   s_inputs : list str;
   s_active : list str;                              (* user functions being evaluated *)
+  s_locals : list (str * val);                      (* parameters of the functions being evaluated *)
   s_out : list sevent                               (* newest first *)
 }.
 
@@ -49,25 +50,28 @@ Definition program_t := list (N * list stmt).
 
 Definition emit (s : sst) (e : sevent) : sst :=
   mkS (s_vars s) (s_frames s) (s_dpos s) (s_fns s) (s_tron s) (s_tr s) (s_col s) (s_rand s) (s_inputs s)
-      (s_active s) (e :: s_out s).
+      (s_active s) (s_locals s) (e :: s_out s).
 Definition with_vars (s : sst) (v : varstore) : sst :=
-  mkS v (s_frames s) (s_dpos s) (s_fns s) (s_tron s) (s_tr s) (s_col s) (s_rand s) (s_inputs s) (s_active s) (s_out s).
+  mkS v (s_frames s) (s_dpos s) (s_fns s) (s_tron s) (s_tr s) (s_col s) (s_rand s) (s_inputs s) (s_active s) (s_locals s) (s_out s).
 Definition with_frames (s : sst) (f : list frame) : sst :=
-  mkS (s_vars s) f (s_dpos s) (s_fns s) (s_tron s) (s_tr s) (s_col s) (s_rand s) (s_inputs s) (s_active s) (s_out s).
+  mkS (s_vars s) f (s_dpos s) (s_fns s) (s_tron s) (s_tr s) (s_col s) (s_rand s) (s_inputs s) (s_active s) (s_locals s) (s_out s).
 Definition with_dpos (s : sst) (d : N) : sst :=
-  mkS (s_vars s) (s_frames s) d (s_fns s) (s_tron s) (s_tr s) (s_col s) (s_rand s) (s_inputs s) (s_active s) (s_out s).
+  mkS (s_vars s) (s_frames s) d (s_fns s) (s_tron s) (s_tr s) (s_col s) (s_rand s) (s_inputs s) (s_active s) (s_locals s) (s_out s).
 Definition with_fns (s : sst) (f : list (str * (list str * expr * N))) : sst :=
-  mkS (s_vars s) (s_frames s) (s_dpos s) f (s_tron s) (s_tr s) (s_col s) (s_rand s) (s_inputs s) (s_active s) (s_out s).
+  mkS (s_vars s) (s_frames s) (s_dpos s) f (s_tron s) (s_tr s) (s_col s) (s_rand s) (s_inputs s) (s_active s) (s_locals s) (s_out s).
 Definition with_trace (s : sst) (on : bool) (tr : option N) : sst :=
-  mkS (s_vars s) (s_frames s) (s_dpos s) (s_fns s) on tr (s_col s) (s_rand s) (s_inputs s) (s_active s) (s_out s).
+  mkS (s_vars s) (s_frames s) (s_dpos s) (s_fns s) on tr (s_col s) (s_rand s) (s_inputs s) (s_active s) (s_locals s) (s_out s).
 Definition with_col (s : sst) (c : N) : sst :=
-  mkS (s_vars s) (s_frames s) (s_dpos s) (s_fns s) (s_tron s) (s_tr s) c (s_rand s) (s_inputs s) (s_active s) (s_out s).
+  mkS (s_vars s) (s_frames s) (s_dpos s) (s_fns s) (s_tron s) (s_tr s) c (s_rand s) (s_inputs s) (s_active s) (s_locals s) (s_out s).
 Definition with_rand (s : sst) (r : option (N * N * N)) : sst :=
-  mkS (s_vars s) (s_frames s) (s_dpos s) (s_fns s) (s_tron s) (s_tr s) (s_col s) r (s_inputs s) (s_active s) (s_out s).
+  mkS (s_vars s) (s_frames s) (s_dpos s) (s_fns s) (s_tron s) (s_tr s) (s_col s) r (s_inputs s) (s_active s) (s_locals s) (s_out s).
 Definition with_inputs (s : sst) (i : list str) : sst :=
-  mkS (s_vars s) (s_frames s) (s_dpos s) (s_fns s) (s_tron s) (s_tr s) (s_col s) (s_rand s) i (s_active s) (s_out s).
+  mkS (s_vars s) (s_frames s) (s_dpos s) (s_fns s) (s_tron s) (s_tr s) (s_col s) (s_rand s) i (s_active s) (s_locals s) (s_out s).
 Definition with_active (s : sst) (a : list str) : sst :=
-  mkS (s_vars s) (s_frames s) (s_dpos s) (s_fns s) (s_tron s) (s_tr s) (s_col s) (s_rand s) (s_inputs s) a (s_out s).
+  mkS (s_vars s) (s_frames s) (s_dpos s) (s_fns s) (s_tron s) (s_tr s) (s_col s) (s_rand s) (s_inputs s) a (s_locals s) (s_out s).
+
+Definition with_locals (s : sst) (l : list (str * val)) : sst :=
+  mkS (s_vars s) (s_frames s) (s_dpos s) (s_fns s) (s_tron s) (s_tr s) (s_col s) (s_rand s) (s_inputs s) (s_active s) l (s_out s).
 
 Definition col_after (col : N) (t : str) : N := fold_left (fun c ch => if ch =? 10 then 0 else c + 1) t col.
 Definition print_text (s : sst) (t : str) : sst := with_col (emit s (SePrint t)) (col_after (s_col s) t).
@@ -150,7 +154,23 @@ Definition apply_builtin (name : str) (args : list val) : SM val :=
   else sundef.      (* libm functions, DATE$, TIME$, INKEY$: outside the defined fragment *)
 
 Definition fetch_var (name : str) : SM val :=
-  sdo s <~ sget ;; slift (var_fetch (s_vars s) name).
+  sdo s <~ sget ;;
+  match alist_get name (s_locals s) with
+  | Some v => sret v                                  (* a parameter of the function being evaluated *)
+  | None => slift (var_fetch (s_vars s) name)
+  end.
+
+(* FNX.P -> P : the parameter's own name decides its type *)
+Fixpoint after_dot (s : str) (acc : str) : str :=
+  match s with
+  | [] => acc
+  | c :: r => if c =? 46 then after_dot r r else after_dot r acc
+  end.
+Definition param_value (types : list vtype) (mangled : str) (v : val) : res val :=
+  match key_type types (after_dot mangled mangled) with
+  | Some t => convert_to t v
+  | None => err E_Internal
+  end.
 Definition store_var (name : str) (v : val) : SM unit :=
   fun s => match var_store (s_vars s) name v with
            | Ok vs => (with_vars s vs, EvOk tt)
@@ -207,16 +227,27 @@ Fixpoint eval (fuel : nat) (cur_line : N) (e : expr) : SM val :=
                     if negb (lenN params =? lenN vs) then serr E_IllegalFunctionCall
                     else if existsb (str_eqb name) (s_active s) then sundef   (* recursion *)
                     else
-                      sdo _ <~ (fix bind (ps : list str) (xs : list val) : SM unit :=
-                                  match ps, xs with
-                                  | p :: ps', x :: xs' => sdo _ <~ store_var p x ;; bind ps' xs'
-                                  | _, _ => sret tt
-                                  end) params vs ;;
+                      sdo st0 <~ sget ;;
+                      sdo bound <~ (fix bind (ps : list str) (xs : list val) : SM (list (str * val)) :=
+                                      match ps, xs with
+                                      | p :: ps', x :: xs' =>
+                                          (* an argument that cannot be converted fails inside the function:
+                                             the manual does not say which line that is *)
+                                          sdo x' <~ (match param_value (vs_types (s_vars st0)) p x with
+                                                     | Ok y => sret y
+                                                     | _ => sundef
+                                                     end) ;;
+                                          sdo more <~ bind ps' xs' ;;
+                                          sret ((p, x') :: more)
+                                      | _, _ => sret []
+                                      end) params vs ;;
+                      let saved := s_locals st0 in
+                      sdo _ <~ (fun s => (with_locals s (bound ++ saved), EvOk tt)) ;;
                       sdo _ <~ trace_line def_line ;;
                       sdo _ <~ (fun s => (with_active s (name :: s_active s), EvOk tt)) ;;
                       (fun s => match eval f def_line body s with
                                 | (s', EvOk v) =>
-                                    let s2 := with_active s' (tl (s_active s')) in
+                                    let s2 := with_locals (with_active s' (tl (s_active s'))) saved in
                                     (match trace_line cur_line s2 with (s3, _) => (s3, EvOk v) end)
                                 | (s', EvErr _) => (s', EvUndef)      (* error inside a function body *)
                                 | (s', EvUndef) => (s', EvUndef)
@@ -659,7 +690,7 @@ End Sem.
 
 (* RUN [n]: CLEAR, then start at the first line (or at line n) *)
 Definition sem_start (tron : bool) (inputs : list str) : sst :=
-  mkS vars_empty [] 0 [] tron None 0 None inputs [] [].
+  mkS vars_empty [] 0 [] tron None 0 None inputs [] [] [].
 
 Definition sem_run (O : oracle) (prog : program_t) (tron : bool) (inputs : list str) (fuel : nat) : sst * halt :=
   match prog with
